@@ -293,6 +293,13 @@ func (p *prop) tagsAndOracle(k *kase, impl string, o *obs, out *core.Outcome) {
 		if o.remoteHit && rzone != "" {
 			tag("remote_ip-matcher:zoned-match")
 		}
+		if o.celRan {
+			tag("matchers:cel-form")
+			if o.celClient != o.matchedIP || o.celRemote != o.remoteHit {
+				fail("cel-matcher-disagrees-with-matcher", fmt.Sprintf("client_ip: matcher %v / CEL %v, remote_ip: matcher %v / CEL %v (client_ip %q, remote %q)",
+					o.matchedIP, o.celClient, o.remoteHit, o.celRemote, o.clientIP, k.remote))
+			}
+		}
 		if o.placeh != o.clientIP {
 			fail("client-ip-placeholder-differs", fmt.Sprintf("{http.vars.client_ip} = %q, client_ip = %q", o.placeh, o.clientIP))
 		}
